@@ -105,7 +105,11 @@ func (en *Env) eval(e ast.Expr) *SV {
 		if ptr == nil {
 			ptr = x.ptrFromTerm(p.T, pt)
 		}
-		return TV(en.load(ptr))
+		v := en.load(ptr)
+		if et := ptr.targetType(); en.st != nil && needsValidity(et, 0) {
+			en.validIn(v, et)
+		}
+		return TV(v)
 	case *ast.UnaryExpr:
 		switch n.Op {
 		case token.NOT:
@@ -865,6 +869,10 @@ func (en *Env) evalOverlayCall(fobj *types.Func, decl *ast.FuncDecl, n *ast.Call
 		c := x.compOf(en.heap, comp, ArraySort(key.Sort, ArraySort(k2.Sort, rs)))
 		return TV(Select(Select(c, key), k2))
 	}
+	// fun: heap-independent, emitted once as an SMT defined function
+	if fp := x.eng.funPreds[fobj]; fp != nil {
+		return en.evalFunCall(fobj, decl, n)
+	}
 	// pred: inline the body
 	if decl.Body == nil || len(decl.Body.List) != 1 {
 		unsupportedf("pred %s has no single-return body", name)
@@ -1195,4 +1203,45 @@ func (en *Env) viewCall(fn *ssa.Function, vc *Contract, recv ast.Expr, n *ast.Ca
 	}
 	unsupportedf("view contract of %s is not of the form `ensures result == E`", fn)
 	return nil
+}
+
+// evalFunCall translates a `fun` (heap-independent spec function) into an SMT define-fun (once per
+// world) and returns its application.
+func (en *Env) evalFunCall(fobj *types.Func, decl *ast.FuncDecl, n *ast.CallExpr) *SV {
+	x, w := en.x, en.x.w
+	name := "sf_" + fobj.Pkg().Name() + "_" + fobj.Name()
+	sig := fobj.Type().(*types.Signature)
+	rs := w.SortOf(sig.Results().At(0).Type())
+	if _, ok := w.funs[name]; !ok {
+		ret, ok := decl.Body.List[0].(*ast.ReturnStmt)
+		if !ok {
+			unsupportedf("fun %s body is not a return", fobj.Name())
+		}
+		// evaluate the body with formal parameters as SMT variables; an empty heap makes
+		// any heap access fail loudly (a fun must not depend on the heap)
+		sub := &Env{x: x, vars: map[string]*SV{}, bound: map[string]*Term{}, heap: &Heap{comps: map[string]*Term{}, alloc: IntLit(0, SInt)}, old: nil, st: nil, info: en.info, depth: en.depth + 1}
+		var ps []string
+		i := 0
+		for _, f := range decl.Type.Params.List {
+			for _, nm := range f.Names {
+				s := w.SortOf(sig.Params().At(i).Type())
+				v := Atom("p!"+nm.Name, s)
+				sub.bound[nm.Name] = v
+				ps = append(ps, "("+v.Op+" "+string(s)+")")
+				i++
+			}
+		}
+		before := len(sub.heap.comps)
+		body := x.svTerm(sub.eval(ret.Results[0]))
+		if len(sub.heap.comps) != before {
+			unsupportedf("fun %s reads the heap; use pred", fobj.Name())
+		}
+		w.defineFun(name, "("+strings.Join(ps, " ")+") "+string(rs)+" "+body.String())
+	}
+	var args []*Term
+	for i, a := range n.Args {
+		t := en.evalT(a)
+		args = append(args, en.coerceArg(t, sig.Params().At(i).Type()))
+	}
+	return TV(App(name, rs, args...))
 }
